@@ -232,7 +232,7 @@ inductive Obs
   | scheduled (k : Call)                 -- handler ran: `_schedule_rpc(k)`
   | ignored                              -- `broadcast_receive` did not recognise the subject
   | rejected (cls : String)              -- `message_receive` raised
-  | called (r : RetV)                    -- the scheduled callback ran the direct call
+  | called (k : Call) (r : RetV)         -- the scheduled callback ran the direct call `k`
   | disabled
 deriving DecidableEq, Repr, Inhabited
 
@@ -304,7 +304,7 @@ def step (O : Oracle) (P : Prog) (c : Cfg) (ev : Ev) : Cfg × Obs :=
           let c := { c with calls := c.calls.filter (·.id ≠ id) }
           let r := direct s.callee c.p
           let c := runPM O c r
-          (if s.bcast then c else setReply c id (.ret r.2), .called r.2)
+          (if s.bcast then c else setReply c id (.ret r.2), .called s.callee r.2)
 
 def run (O : Oracle) (P : Prog) (c0 : Cfg) (evs : List Ev) : Cfg := evs.foldl (fun c e => (step O P c e).1) c0
 
